@@ -3,6 +3,7 @@ pub mod catalog;
 pub mod colors;
 pub mod fw;
 pub mod imgs;
+pub mod proto;
 pub mod targets;
 pub mod texts;
 pub mod webcolors;
